@@ -284,7 +284,9 @@ func (ex *Exec) recvInstr(fr *Frame, x *ssa.UnOp, st *State) {
 	c := ex.toTerm(st, ex.val(fr, st, x.X), x.X.Type())
 	et := x.X.Type().Underlying().(*types.Chan).Elem()
 	v := vc.fresh("recv", vc.sorts.SortOf(et))
+	vc.curChanName, vc.curChanElem = chanSourceName(x.X), et
 	ex.chanEvent(fr, st, "recv", c, v)
+	vc.curChanName = ""
 	if x.CommaOk {
 		fr.vals[x] = Val{K: VTuple, Tup: []Val{tv(v), tv(vc.fresh("recv_ok", SBool))}}
 	} else {
@@ -296,7 +298,9 @@ func (ex *Exec) sendInstr(fr *Frame, x *ssa.Send, st *State) {
 	c := ex.toTerm(st, ex.val(fr, st, x.Chan), x.Chan.Type())
 	et := x.Chan.Type().Underlying().(*types.Chan).Elem()
 	v := ex.toTerm(st, ex.val(fr, st, x.X), et)
+	ex.vc.curChanName, ex.vc.curChanElem = chanSourceName(x.Chan), et
 	ex.chanEvent(fr, st, "send", c, v)
+	ex.vc.curChanName = ""
 }
 
 func (ex *Exec) goInstr(fr *Frame, x *ssa.Go, st *State) {
@@ -339,7 +343,9 @@ func (ex *Exec) selectInstr(fr *Frame, x *ssa.Select, st *State, k func(*State, 
 				v := vc.fresh("sel_recv", vc.sorts.SortOf(et))
 				if j == idx {
 					c := ex.toTerm(st2, ex.val(fr, st2, s.Chan), s.Chan.Type())
+					vc.curChanName, vc.curChanElem = chanSourceName(s.Chan), et
 					ex.chanEvent(fr, st2, "recv", c, v)
+					vc.curChanName = ""
 				}
 				tup = append(tup, tv(v))
 			}
@@ -354,7 +360,9 @@ func (ex *Exec) selectInstr(fr *Frame, x *ssa.Select, st *State, k func(*State, 
 			c := ex.toTerm(st2, ex.val(fr, st2, s.Chan), s.Chan.Type())
 			et := s.Chan.Type().Underlying().(*types.Chan).Elem()
 			v := ex.toTerm(st2, ex.val(fr, st2, s.Send), et)
+			vc.curChanName, vc.curChanElem = chanSourceName(s.Chan), et
 			ex.chanEvent(fr, st2, "send", c, v)
+			vc.curChanName = ""
 		}
 		k(st2, mk(i, st2))
 		ex.cur = cur
